@@ -65,8 +65,10 @@ ImagZero(obs) ==
 (* within tol (< 2^40 quanta) of an integer iff that integer is 0.                                 *)
 NziOK(e, n) == /\ Len(e.nzi) = Len(e.obs)
                /\ \A j \in DOMAIN e.nzi : e.nzi[j] \in 1..n /\ (j > 1 => e.nzi[j - 1] < e.nzi[j])
+(* lowprec: the samples were handed over in single precision (float32 / complex64): the answer has the layout and the values of
+   the double-precision one, to single-precision accuracy (2^-17 of the largest coefficient) *)
 CoeffsMatch(e, vec) ==
-  LET tol == MaxAbs(vec) * 1024 + AbsQuanta
+  LET tol == IF e.lowprec THEN MaxAbs(vec) * 8388608 + AbsQuanta ELSE MaxAbs(vec) * 1024 + AbsQuanta
       S == {e.nzi[j] : j \in DOMAIN e.nzi}
   IN /\ \A j \in DOMAIN e.nzi :
           LET v == vec[e.nzi[j]] IN ObsWithin(e.obs[j], FxInt(v[1]), FxInt(v[2]), tol)
